@@ -1,7 +1,7 @@
 (* Property C14 - only statements, each closed by [exact]. *)
 From Coq Require Import NArith ZArith List Bool.
 Import ListNotations.
-Require Import UV.C14.Model UV.C14.Proofs UV.C14.Patch UV.C14.Pages.
+Require Import UV.C14.Model UV.C14.Proofs UV.C14.Patch UV.C14.Pages UV.C14.Layout UV.C14.SizeOpt UV.C14.Detect.
 Local Open Scope N_scope.
 
 (* ---- which functions are selected ---- *)
@@ -25,6 +25,14 @@ Theorem C14_no_match_zero : forall O pl lib so name,
   (forall p, In p pl -> item_hits O lib so name p = false) -> match_pattern_list O pl lib so name = 0%Z.
 Proof. exact match_none. Qed.
 Print Assumptions C14_no_match_zero.
+
+(* dlopen(): match_pattern_module lets mcount_dynamic_dlopen skip a library only when no pattern of the
+   list can apply to any of its symbols *)
+Theorem C14_module_skip_sound : forall pl path so,
+  match_pattern_module pl path so = false ->
+  forall O name, match_pattern_list O pl path so name = 0%Z.
+Proof. exact module_skip_sound. Qed.
+Print Assumptions C14_module_skip_sound.
 
 (* the string uftrace builds from -P/-U options (';'-joined, '!' for -U) parses back into one list
    element per option, in order, with the option's polarity, pattern and @module *)
@@ -138,6 +146,100 @@ Theorem C14_checker_accepts_model : forall O c syms targets base before,
     (window (fst (patch_func_matched O c syms targets (mem_of base before, stats0))) base (length before)) = true.
 Proof. exact checker_accepts_model. Qed.
 Print Assumptions C14_checker_accepts_model.
+
+(* ---- the same under the REALISTIC layout hypothesis: pairwise disjoint symbol ranges
+   [addr, addr+size), every function that starts with endbr64 at least 9 bytes long, every function
+   whose last match is a -U at least 6.  Adjacent 6-byte functions are inside (adj_layout_ok) although
+   their 9-byte heads overlap (adj_not_heads). ---- *)
+Theorem C14_update_exact_layout : forall O c syms targets m k,
+  layout_ok O c m (visited c syms targets) ->
+  forall a, fst (patch_func_matched O c syms targets (m, k)) a = expect O c m (visited c syms targets) a.
+Proof. exact update_exact_layout. Qed.
+Print Assumptions C14_update_exact_layout.
+
+Theorem C14_selected_gets_call_layout : forall O c syms targets m k s,
+  layout_ok O c m (visited c syms targets) -> In s (visited c syms targets) ->
+  spec_decision O c s = 1%Z -> patchable c m s = true ->
+  rel32 (c_tramp c) (entry_of m (s_addr s)) <> 0%Z ->
+  rd (fst (patch_func_matched O c syms targets (m, k))) (entry_of m (s_addr s)) 5
+  = call_insn (c_tramp c) (entry_of m (s_addr s)).
+Proof. exact selected_gets_call_layout. Qed.
+Print Assumptions C14_selected_gets_call_layout.
+
+(* a function the specification does not select is untouched over its WHOLE range [addr, addr+size) *)
+Theorem C14_unselected_function_untouched : forall O c syms targets m k s,
+  layout_ok O c m (visited c syms targets) -> In s (visited c syms targets) ->
+  spec_change O c m s = None ->
+  forall a, in_sym s a = true -> fst (patch_func_matched O c syms targets (m, k)) a = m a.
+Proof. exact unselected_function_untouched. Qed.
+Print Assumptions C14_unselected_function_untouched.
+
+Theorem C14_checker_accepts_model_layout : forall O c syms targets base before,
+  layout_ok O c (mem_of base before) (visited c syms targets) ->
+  ok_update O c syms targets base before
+    (window (fst (patch_func_matched O c syms targets (mem_of base before, stats0))) base (length before)) = true.
+Proof. exact checker_accepts_model_layout. Qed.
+Print Assumptions C14_checker_accepts_model_layout.
+
+(* the decision procedure the tie uses to count cases inside the theorem's domain is sound *)
+Theorem C14_layout_decision_sound : forall O c m vis, layout_okb O c m vis = true -> layout_ok O c m vis.
+Proof. exact layout_okb_sound. Qed.
+Print Assumptions C14_layout_decision_sound.
+
+(* ---- -Z SIZE from the command line (strtol -> int -> "%d" -> strtoul -> unsigned) ---- *)
+(* ordinary values reach mcount_patch_func unchanged (code as found and repaired) *)
+Theorem C14_cli_size_exact : forall fixed v, (0 < v <= INT_MAX)%Z -> cli_min_size fixed v = Z.to_N v.
+Proof. exact cli_min_size_exact. Qed.
+Print Assumptions C14_cli_size_exact.
+
+(* repaired parser (/repo "fix: size filter: do not wrap around ..."): whatever positive SIZE the user
+   writes, a function smaller than it is never patched *)
+Theorem C14_cli_size_filter_sound : forall ty tramp m s v,
+  (0 < v)%Z -> (Z.of_N (s_size s) < v)%Z -> (Z.of_N (s_size s) < INT_MAX)%Z ->
+  mcount_patch_func ty tramp (cli_min_size true v) m s = (m, Skipped).
+Proof. exact cli_size_filter_sound. Qed.
+Print Assumptions C14_cli_size_filter_sound.
+
+(* the code as found: -Z 4294967297 reached libmcount as 1 (a 16-byte function was patched),
+   -Z 2147483648 as "no filter", -Z -4294967295 as 1 *)
+Theorem C14_cli_size_filter_refuted :
+  (Z.of_N (s_size z_sym) < 4294967297)%Z
+  /\ cli_min_size false 4294967297 = 1
+  /\ snd (mcount_patch_func DPatchable 4080 (cli_min_size false 4294967297) z_mem z_sym) = Success
+  /\ cli_min_size false 2147483648 = 0
+  /\ cli_min_size false (-4294967295) = 1.
+Proof. exact cli_size_filter_refuted. Qed.
+Print Assumptions C14_cli_size_filter_refuted.
+
+(* ---- which patch method a module gets (mcount_arch_find_module) ---- *)
+(* repaired probe (/repo "fix: dynamic: skip endbr64 when probing ..."): a module in which any ordinary
+   function has a NOP form at its post-endbr64 entry gets a type that patches, so such a function is
+   patchable exactly when it passes the size gate, whatever else the module contains *)
+Theorem C14_detected_module_patches : forall sect chk m syms s pats lib so tramp mn,
+  sect <> SectXray -> In s syms -> ordinary s = true ->
+  is_nop_sig (rd m (entry_of m (s_addr s)) 5) = true ->
+  patchable {| c_pats := pats; c_lib := lib; c_so := so; c_ty := find_module_type true sect chk m syms;
+               c_tramp := tramp; c_min := mn |} m s
+  = negb (s_size s <? eff_min_size mn).
+Proof. exact detected_module_patches. Qed.
+Print Assumptions C14_detected_module_patches.
+
+Theorem C14_detect_falls_back : forall fixed chk m syms,
+  (forall s, In s syms -> probe_sym fixed m s = false) -> find_module_type fixed SectNone chk m syms = chk.
+Proof. exact detect_falls_back. Qed.
+Print Assumptions C14_detect_falls_back.
+
+(* the code as found: a -mfentry -mnop-mcount module built with -fcf-protection was classified "none":
+   patch_fentry_code could patch the function, mcount_patch_func (type none) fails, nothing is traced *)
+Theorem C14_detect_endbr_refuted :
+  ordinary cet_sym = true
+  /\ snd (patch_fentry_code 4080 cet_mem (s_addr cet_sym)) = Success
+  /\ find_module_type false SectNone DNone cet_mem [cet_sym] = DNone
+  /\ mcount_patch_func (find_module_type false SectNone DNone cet_mem [cet_sym]) 4080 0 cet_mem cet_sym = (cet_mem, Failed)
+  /\ find_module_type true SectNone DNone cet_mem [cet_sym] = DFentryNop
+  /\ snd (mcount_patch_func (find_module_type true SectNone DNone cet_mem [cet_sym]) 4080 0 cet_mem cet_sym) = Success.
+Proof. exact detect_endbr_refuted. Qed.
+Print Assumptions C14_detect_endbr_refuted.
 
 (* the size gate is 6 bytes but a function with endbr64 needs 9: the patch of a 6-byte symbol can
    land in the next symbol, which is itself below the gate (needs NOPs spanning two symbols) *)
